@@ -522,6 +522,19 @@ def gen_cases(ctx, prop, n):
         yield cfg, rng.randint(0, 2 ** 31)
 
 
+# channels of the closed-loop comparison (sim_checks: whole simulation against PamsModel/Sim.lean)
+# that implicate each property
+SIM_CHANNELS = {
+    "C05": ("sim.trace", "sim.records"),
+    "C06": ("sim.trace", "sim.final"),
+    "C09": ("sim.trace", "sim.records"),
+    "C10": ("sim.records",),
+    "C11": ("sim.trace",),
+    "C14": ("sim.final",),
+    "C16": ("sim.trace", "sim.records"),
+}
+
+
 def run_runner_property(ctx, prop, n_quick=60, model_available=True, gen=None, monitor=None,
                         alphabet=None, nontrivial_fn=None, rule=None, per_run=None):
     n = n_quick * (ctx.scale if ctx.tier == "thorough" else 1)
@@ -534,6 +547,20 @@ def run_runner_property(ctx, prop, n_quick=60, model_available=True, gen=None, m
     dist = {"events": 0, "aborted_runs": 0, "setup_errors": 0, "sessions": 0, "fills": 0,
             "consults": 0, "hft_consults": 0, "market_calls": 0, "steps": 0}
     gen = gen or (lambda: gen_cases(ctx, prop, n))
+    sim_pending, sim_diffs = [], []
+    sim_stats = {"runs": 0, "requests": 0, "fills": 0, "records": 0, "unsupported": {}}
+
+    def flush_sim():
+        import sim_checks
+        ds, st = sim_checks.check_runs(sim_pending)
+        for d in ds:
+            if d["channel"] in SIM_CHANNELS[prop] or d["channel"] == "sim.driver":
+                sim_diffs.append(d)
+        for k in ("runs", "requests", "fills", "records"):
+            sim_stats[k] += st[k]
+        for k, v in st["unsupported"].items():
+            sim_stats["unsupported"][k] = sim_stats["unsupported"].get(k, 0) + v
+        del sim_pending[:]
     for cfg, seed in gen():
         run = rc.run_sim(cfg, seed)
         h = digest([cfg, seed])
@@ -574,7 +601,13 @@ def run_runner_property(ctx, prop, n_quick=60, model_available=True, gen=None, m
         inputs.append((cfg, seed))
         if per_run is not None:
             per_run(run, cfg, seed)
-    diffs = []
+        if model_available and prop in SIM_CHANNELS:
+            sim_pending.append((run, b))
+            if len(sim_pending) >= 40:
+                flush_sim()
+    if sim_pending:
+        flush_sim()
+    diffs = list(sim_diffs)
     compared = 0
     if model_available and builts:
         traces, err = rc.model_traces(builts)
@@ -592,7 +625,7 @@ def run_runner_property(ctx, prop, n_quick=60, model_available=True, gen=None, m
                                   "config": cfg, "seed": seed})
     return {"evaluations": len(hashes), "distinct_nontrivial": len(nontriv), "rule": rule or RULES.get(prop, ""),
             "samples": samples, "violations": violations, "diffs": diffs,
-            "comparisons": {"trace_events_compared": compared}, "traces_validated": len(builts),
+            "comparisons": {"trace_events_compared": compared, "closed_loop": sim_stats}, "traces_validated": len(builts),
             "distribution": dist, "monitor_checks": checks}
 
 
